@@ -105,11 +105,12 @@ def run(ctx):
             start = rng.choice([1000.0, 11916.0, 512.5, 0.0])
             spacing = rng.choice([0.25, 0.5, 1.0, 0.125])
             nfr = sum(p['blocks'])
-            stop = start + (nfr - 1) * spacing * (1 if down else -1)
-            if stop == start:
-                stop = start + (spacing if down else -spacing)
+            # the header range need not cover the recorded frames exactly: the last block is padded, so a pass often
+            # holds more frames than (stop - start) / spacing + 1, and sometimes fewer
+            span = rng.choice([max(1, nfr - 1), max(1, nfr - 1), max(1, nfr // 2), 1, nfr + 7])
+            stop = start + span * spacing * (1 if down else -1)
             if stop < 0:
-                down, stop = True, start + max(1, nfr - 1) * spacing
+                down, stop = True, start + span * spacing
             blocks = []
             for bi, f in enumerate(p['blocks'], 1):
                 blocks.append([[id_word(pi, bi, c, j) for j in range(1, f + 1)] for c in range(1, p['nch'] + 1)])
